@@ -7,6 +7,9 @@ pub fn run(id: &str) -> Result<String, String> {
         "F15" => f15(),
         "F16" => f16(),
         "F1" => f1(),
+        "F2" => f2(),
+        "F6" => f6(),
+        "F12" => f12(),
         _ => Err(format!("unknown witness {id}")),
     }
 }
@@ -66,4 +69,75 @@ fn f1() -> Result<String, String> {
         true
     });
     match r { Ok(_) => Ok("\"cases\":1".into()), Err(_) => Err("seek to (0,100) in a 7-byte block then read_exact panics".into()) }
+}
+
+/// F2: CSI-style BinnedIndex min_offset is not a lower bound: CSI(14,5), records [1,200000]@0, [100000,100010]@100,
+/// [150050,150060]@200; query 150000-150100 must still cover the chunk [0,100) of the long first record.
+fn f2() -> Result<String, String> {
+    use noodles_core::Position;
+    use noodles_csi::{self as csi, BinningIndex, binning_index::{Indexer, index::reference_sequence::{bin::Chunk, index::BinnedIndex}}};
+    let vp = |n: u64| bgzf::VirtualPosition::from(n);
+    let p = |n: usize| Position::try_from(n).unwrap();
+    let mut ix = Indexer::<BinnedIndex>::new(14, 5);
+    ix.add_record(Some((0, p(1), p(200000), true)), Chunk::new(vp(0), vp(100))).map_err(|e| e.to_string())?;
+    ix.add_record(Some((0, p(100000), p(100010), true)), Chunk::new(vp(100), vp(200))).map_err(|e| e.to_string())?;
+    ix.add_record(Some((0, p(150050), p(150060), true)), Chunk::new(vp(200), vp(300))).map_err(|e| e.to_string())?;
+    let index: csi::binning_index::Index<BinnedIndex> = ix.build(1);
+    let chunks = index.query(0, (p(150000)..=p(150100)).into()).map_err(|e| e.to_string())?;
+    let covered = chunks.iter().any(|c| c.start() <= vp(0) && vp(100) <= c.end());
+    if covered { Ok("\"cases\":1".into()) } else {
+        Err(format!("CSI(14,5) BinnedIndex: records [1,200000]@0 [100000,100010]@100 [150050,150060]@200; query 150000-150100 returns {:?}: the chunk [0,100) of the overlapping first record is pruned (min_offset is not a lower bound)", chunks.iter().map(|c| (u64::from(c.start()), u64::from(c.end()))).collect::<Vec<_>>()))
+    }
+}
+
+struct OneByteFirst<'a> { data: &'a [u8], first: bool }
+impl<'a> Read for OneByteFirst<'a> {
+    fn read(&mut self, buf: &mut [u8]) -> std::io::Result<usize> {
+        if self.first && !buf.is_empty() && !self.data.is_empty() { self.first = false; buf[0] = self.data[0]; self.data = &self.data[1..]; return Ok(1); }
+        self.data.read(buf)
+    }
+}
+/// F6: a source whose first read returns 1 byte makes the generic alignment reader take a BAM for SAM.
+fn f6() -> Result<String, String> {
+    use noodles_sam as sam;
+    use noodles_util::alignment;
+    let header = sam::Header::default();
+    let mut w = noodles_bam::io::Writer::new(Vec::new());
+    w.write_header(&header).map_err(|e| e.to_string())?;
+    let rec = sam::alignment::RecordBuf::builder().set_name("r1").build();
+    use sam::alignment::io::Write as _;
+    w.write_alignment_record(&header, &rec).map_err(|e| e.to_string())?;
+    w.try_finish().map_err(|e| e.to_string())?;
+    let data = w.get_ref().get_ref().clone();
+    let count = |src: Box<dyn Read>| -> Result<Vec<String>, String> {
+        let mut r = alignment::io::reader::Builder::default().build_from_reader(src).map_err(|e| e.to_string())?;
+        let h = r.read_header().map_err(|e| format!("read_header: {e}"))?;
+        let mut names = Vec::new();
+        for res in r.records(&h) { let rec = res.map_err(|e| format!("record: {e}"))?; names.push(format!("{:?}", rec.name())); }
+        Ok(names)
+    };
+    let plain = count(Box::new(std::io::Cursor::new(data.clone())))?;
+    let chunked = count(Box::new(OneByteFirst { data: Box::leak(data.into_boxed_slice()), first: true }));
+    match chunked {
+        Ok(n) if n == plain => Ok("\"cases\":1".into()),
+        other => Err(format!("BAM through a Read whose first read returns 1 byte: plain delivery gives {:?}, chunked delivery gives {:?}", plain, other)),
+    }
+}
+
+/// F12: a headerless SAM whose first QNAME starts with CRAM is sniffed as CRAM by the generic reader.
+fn f12() -> Result<String, String> {
+    use noodles_sam as sam;
+    use noodles_util::alignment;
+    use sam::alignment::io::Write as _;
+    let header = sam::Header::default();
+    let mut w = sam::io::Writer::new(Vec::new());
+    w.write_header(&header).map_err(|e| e.to_string())?;
+    let rec = sam::alignment::RecordBuf::builder().set_name("CRAMPUS1").build();
+    w.write_alignment_record(&header, &rec).map_err(|e| e.to_string())?;
+    let data = w.get_ref().clone();
+    let mut r = alignment::io::reader::Builder::default().build_from_reader(std::io::Cursor::new(data)).map_err(|e| e.to_string())?;
+    match r.read_header() {
+        Ok(h) => { let n = r.records(&h).count(); if n == 1 { Ok("\"cases\":1".into()) } else { Err(format!("read back {n} records")) } }
+        Err(e) => Err(format!("SAM writer output (default header, QNAME CRAMPUS1) is not recognised as SAM by the generic reader: read_header fails with '{e}'")),
+    }
 }
